@@ -11,6 +11,7 @@ var Registry = map[string]func() int{
 	"C19": C19,
 	"C13": C13,
 	"C09": C09,
+	"C10": C10,
 }
 
 func IDs() []string {
